@@ -34,6 +34,13 @@ def scenarios(quick):
         S.append(("ws", "socket", "ws.socket.start:%s" % m, "start-up", 2, None, None))
         S.append(("ws", "swarm", "ws.swarm.start:%s" % m, "start-up", 2, None, None))
         S.append(("ws", "signals", "ws.signals.start:%s" % m, "start-up", 1, None, None))
+    if quick:
+        # the other two ways of stopping (thorough: every point in every mode)
+        for m in ("return_err", "return_ok"):
+            S.append(("udp", "socket[mio]", "udp.socket.loop:%s:200" % m, "later", 2, None, "mio"))
+            S.append(("udp", "cleaning", "udp.cleaning.loop:%s:1" % m, "later", 1, None, "mio"))
+            S.append(("http", "swarm", "http.swarm.start:%s" % m, "start-up", 2, None, None))
+            S.append(("ws", "socket", "ws.socket.start:%s" % m, "start-up", 2, None, None))
     S.append(("udp", "socket[uring]", "udp.socket.loop:panic:3", "later (after serving requests)", 1, "udp_requests", "uring"))
     S.append(("udp", "signals", "udp.signals.signal:panic", "later (on SIGUSR1)", 1, "sigusr1", "mio"))
     S.append(("udp", "socket[mio]", "bind", "start-up (address in use)", 1, None, "mio"))
